@@ -102,10 +102,13 @@ def strategy_impl(draw, tier):
         return {"where": where, "def": v1, "call": v2}
 
     bvals = st.one_of(st.sampled_from(M.RULES), st.fixed_dictionaries({r: st.sampled_from(M.RULES) for r in names}))
-    fvals = st.one_of(st.sampled_from([1.0, -2.0, 7.5]), st.fixed_dictionaries({r: st.sampled_from([1.0, -2.0, 7.5, 0.0]) for r in names}))
+    # zero is a value like any other (a call-time 0 must override a definition-time 5)
+    fvals = st.one_of(st.sampled_from([0.0, 1.0, -2.0, 7.5, 0]), st.fixed_dictionaries({r: st.sampled_from([1.0, -2.0, 7.5, 0.0]) for r in names}))
     return {
         "axes": axes, "sig_in": sig_in, "sig_out": sig_out, "n_out": n_out, "bind": bind, "extra": extra, "inputs": inputs,
-        "bw": bw, "bw_where": draw(st.sampled_from(["def", "call"])), "pad_before": pad_before,
+        "bw": bw, "bw_where": draw(st.sampled_from(["def", "call", "both"])), "pad_before": pad_before,
+        # widths bound at definition time when the real ones are given at call time as well ("both"): they must be overridden
+        "bw_decoy": {d: [draw(st.integers(0, 2)), draw(st.integers(0, 2))] for d in (bw or {})},
         "pad_before_where": draw(st.sampled_from(["def", "call", "both"])),
         "boundary": opt(bvals), "fill_value": opt(fvals),
         "route": draw(st.sampled_from(["decorator-string", "decorator-hints", "apply"])),
@@ -220,6 +223,10 @@ def check(case, ctx):
         if bw_where == "def":
             guf = must_return("as_grid_ufunc", lambda: as_grid_ufunc(boundary_width=bw_arg, **sig_kw, **def_kw)(fn))
             got = must_return("GridUFunc call", guf, grid, *das, axis=axis_arg, **call_kw)
+        elif bw_where == "both" and bw_arg is not None:
+            decoy = {d: tuple(w) for d, w in case["bw_decoy"].items()}
+            guf = must_return("as_grid_ufunc", lambda: as_grid_ufunc(boundary_width=decoy, **sig_kw, **def_kw)(fn))
+            got = must_return("GridUFunc call overriding boundary_width", guf, grid, *das, axis=axis_arg, boundary_width=bw_arg, **call_kw)
         else:
             guf = must_return("as_grid_ufunc", lambda: as_grid_ufunc(**sig_kw, **def_kw)(fn))
             extra_kw = {"boundary_width": bw_arg} if bw_arg is not None else {}
